@@ -639,6 +639,8 @@ func (s *Scheme) initializeDKG(dkg KeyGenerator, threshold int, parties []PartyI
 
 	dkgTopicHash := hash([]byte(DkgTopicName))
 
+	node := nodesOfParties(membership, members)
+
 	dkg.Init(partyIDsToUInts(parties), threshold, func(msg []byte, isBroadcast bool, to uint16) {
 		var payload []byte
 		payload = append(payload, 255)
@@ -647,10 +649,19 @@ func (s *Scheme) initializeDKG(dkg KeyGenerator, threshold int, parties []PartyI
 			s.Send(uint8(MsgTypeMPC), dkgTopicHash, payload, membersWithoutMe...)
 			return
 		}
-		s.Send(uint8(MsgTypeMPC), dkgTopicHash, payload, membership.universalIDByPartyID(PartyID(to)))
+		s.Send(uint8(MsgTypeMPC), dkgTopicHash, payload, node[PartyID(to)])
 	})
 
 	return nil
+}
+
+// nodesOfParties maps each party to the node that represents it among the given session participants.
+func nodesOfParties(membership *membership, participants []UniversalID) map[PartyID]UniversalID {
+	res := make(map[PartyID]UniversalID)
+	for _, uID := range participants {
+		res[membership.partyIDByUniversalID(uID)] = uID
+	}
+	return res
 }
 
 func (s *Scheme) initializeThresholdSigning(membership *membership, parties []PartyID, topicHash []byte, signers []UniversalID) (Signer, error) {
@@ -662,6 +673,8 @@ func (s *Scheme) initializeThresholdSigning(membership *membership, parties []Pa
 
 	membersWithoutMe := excludeUniversal(signers, s.SelfID)
 
+	node := nodesOfParties(membership, signers)
+
 	signer.Init(partyIDsToUInts(parties), s.Threshold, func(msg []byte, isBroadcast bool, to uint16) {
 		var payload []byte
 		payload = append(payload, 255)
@@ -670,7 +683,7 @@ func (s *Scheme) initializeThresholdSigning(membership *membership, parties []Pa
 			s.Send(uint8(MsgTypeMPC), topicHash, payload, membersWithoutMe...)
 			return
 		}
-		s.Send(uint8(MsgTypeMPC), topicHash, payload, membership.universalIDByPartyID(PartyID(to)))
+		s.Send(uint8(MsgTypeMPC), topicHash, payload, node[PartyID(to)])
 	})
 
 	return signer, nil
